@@ -332,6 +332,30 @@ pub fn gen_c15(rng: &mut Rng, thorough: bool) -> Vec<Tagged> {
         out.push(("nested-add-large".into(), Case::NestedAdd(a.clone(), b)));
         out.push(("nested-div-large".into(), Case::NestedDiv(a, 7.0)));
     }
+    // operands of EQUAL ELEMENT COUNT but different shape - another rank (3-D against the flat vector of the same
+    // length, 2-D against flat, 3-D against 2-D, 4-D against 3-D) or the same rank with permuted dimensions - in
+    // both operand orders: refused by every binary operation, the Hadamard product and the mean
+    {
+        let pairs: Vec<(Shape, Shape)> = vec![
+            (Shape::Triple(2, 2, 3), Shape::Single(12)), (Shape::Triple(1, 1, 4), Shape::Single(4)), (Shape::Triple(1, 3, 1), Shape::Single(3)),
+            (Shape::Double(3, 4), Shape::Single(12)), (Shape::Double(1, 5), Shape::Single(5)), (Shape::Triple(2, 3, 2), Shape::Double(6, 2)),
+            (Shape::Triple(1, 3, 4), Shape::Double(3, 4)), (Shape::Quadruple(1, 2, 2, 3), Shape::Triple(2, 2, 3)), (Shape::Quadruple(2, 1, 2, 2), Shape::Single(8)),
+            (Shape::Triple(2, 3, 4), Shape::Triple(4, 3, 2)), (Shape::Triple(2, 3, 4), Shape::Triple(2, 4, 3)), (Shape::Double(2, 6), Shape::Double(6, 2)),
+            (Shape::Double(3, 4), Shape::Double(4, 3)), (Shape::Quadruple(1, 2, 3, 2), Shape::Quadruple(2, 1, 2, 3)), (Shape::Triple(1, 1, 1), Shape::Single(1)),
+        ];
+        for (sa, sb) in pairs {
+            for (x, y) in [(sa.clone(), sb.clone()), (sb.clone(), sa.clone())] {
+                let a = rand_tensor(rng, &x, 1);
+                let b = rand_tensor(rng, &y, 1);
+                for k in 0..3u8 {
+                    out.push((format!("binop{}-equal-count-other-shape-mismatch", k), Case::Binop(k, a.clone(), b.clone())));
+                }
+                out.push(("hadamard-equal-count-other-shape-mismatch".into(), Case::Hadamard(a.clone(), b.clone(), 0.5)));
+                out.push(("mean-equal-count-other-shape-mismatch".into(), Case::Mean(a.clone(), vec![b.clone()])));
+                out.push(("mean-equal-count-other-shape-mismatch".into(), Case::Mean(a.clone(), vec![a.clone(), b.clone()])));
+            }
+        }
+    }
     // SPECIAL SCALARS of the scaled Hadamard product, the scalar division and the nested division: the
     // neighbours of 1, -1, 0.5 and 2 (one ulp below / above), 1 itself, signed zeros, the smallest normal and
     // subnormal numbers, the largest finite number, infinities and NaN - on every rank, with operands whose
@@ -363,4 +387,56 @@ pub fn gen_c15(rng: &mut Rng, thorough: bool) -> Vec<Tagged> {
         }
     }
     out
+}
+
+/// C14 falsifier (implementation only): reshape targets with EXTREME dimensions - usize::MAX, 2^63, 2^62, 2^32,
+/// 2^21 (whose cube is 2^63) - that no unary-number model can represent. The element count of such a target
+/// (taken in u128) differs from the source's, so the reshape must be refused (a panic, whether from the count
+/// assertion or from the overflowing product); if the counts do agree the result must carry the requested shape.
+pub fn fals_c14(rng: &mut Rng, _thorough: bool) -> crate::fals::Fals {
+    use std::panic::{catch_unwind, AssertUnwindSafe};
+    let mut f = crate::fals::Fals::new();
+    let big: [usize; 9] = [usize::MAX, usize::MAX - 1, 1 << 63, (1 << 63) + 1, 1 << 62, 1 << 32, (1 << 32) + 1, 1 << 21, 3_037_000_500];
+    let small: [usize; 4] = [1, 2, 3, 6];
+    let sources: Vec<Tensor> = vec![t1(rng.distinct(6)), t3(1, 2, 3, &rng.distinct(6)), t3(2, 1, 2, &rng.distinct(4)), t1(rng.distinct(1)), t3(3, 2, 2, &rng.distinct(12)), t1(rng.distinct(12))];
+    let mut targets: Vec<Shape> = vec![];
+    for &b in &big {
+        targets.push(Shape::Single(b));
+        for &a in &small {
+            for &c in &small {
+                targets.push(Shape::Triple(b, a, c));
+                targets.push(Shape::Triple(a, b, c));
+                targets.push(Shape::Triple(a, c, b));
+            }
+        }
+        for &b2 in &big {
+            targets.push(Shape::Triple(b, b2, 1));
+            targets.push(Shape::Triple(1, b, b2));
+            targets.push(Shape::Triple(b, 2, b2));
+        }
+    }
+    for src in &sources {
+        let n = shape_numel(&src.shape) as u128;
+        for tg in &targets {
+            let count: u128 = match tg {
+                Shape::Single(a) => *a as u128,
+                Shape::Triple(a, b, c) => (*a as u128).saturating_mul(*b as u128).saturating_mul(*c as u128),
+                _ => continue,
+            };
+            // vector -> vector is not a reshape the property speaks of (the library returns the vector as it is)
+            if matches!(src.shape, Shape::Single(_)) && matches!(tg, Shape::Single(_)) {
+                continue;
+            }
+            let r = catch_unwind(AssertUnwindSafe(|| src.clone().reshape(tg.clone())));
+            let class = format!("reshape-extreme-dimension/{}", if matches!(tg, Shape::Single(_)) { "flat-target" } else { "3d-target" });
+            if count != n {
+                f.check(&class, r.is_err(), "a reshape to a shape with a different element count was accepted", || {
+                    format!("source shape {:?} ({} elements), requested shape {:?}; returned shape {:?}", src.shape, n, tg, r.as_ref().ok().map(|t| t.shape.clone()))
+                });
+            } else if let Ok(t) = &r {
+                f.check(&class, t.shape == *tg, "the reshaped tensor does not carry the requested shape", || format!("source {:?}, requested {:?}, got {:?}", src.shape, tg, t.shape));
+            }
+        }
+    }
+    f
 }
